@@ -44,6 +44,7 @@ def run(ctx):
     from . import shapes
 
     ctx.each(shapes.copy_hook_rule, ctx, repo, "R08h")
+    ctx.each(r08i, ctx, repo)
 
 
 COPY_CALLS = {"sc.dcp", "copy.deepcopy", "dcp", "deepcopy"}
@@ -278,3 +279,64 @@ def thorough(ctx):
     T, cg, E = engines(ctx.repo)
     sweeps.effect_overview(ctx, ctx.repo, E)
     sweeps.pyflakes_crossref(ctx, ctx.repo)
+
+
+# fields whose relink condition is not spelled with the field itself: field -> the condition under which relink must restore it
+RELINK_WHEN = {("Parameter", "_fcn"): "self.fcn_str"}
+
+
+def r08i(ctx, repo):
+    from ..core import boolx as B
+    from ..core.cfg import branch_guards
+
+    ctx.rule("R08i", "unlink / relink are mirror images (every copy, pickle and optimisation evaluation goes through them): each field that a class's unlink() replaces by ids (or drops) is restored by its relink(), under an equivalent condition when both test the field itself; the base class's unlink() and relink() are both called; the parsed function of a Parameter is re-created exactly when the parameter has a function string - a field that stays unlinked makes the copy compute something else than the original (NaN for a function that is silently skipped)")
+    n = 0
+    for ci in repo.module("model").classes.values():
+        u, r = ci.methods.get("unlink"), ci.methods.get("relink")
+        if u is None or r is None or ci.name == "Model":
+            continue
+        n += 1
+
+        def stores(fi):
+            me = fi.params[0]
+            out = {}
+            for st in own_nodes(fi.node):
+                if isinstance(st, ast.Assign):
+                    for t in st.targets:
+                        base = t
+                        while isinstance(base, ast.Subscript):
+                            base = base.value
+                        if isinstance(base, ast.Attribute) and isinstance(base.value, ast.Name) and base.value.id == me:
+                            out.setdefault(base.attr, []).append(st)
+            return out
+
+        us, rs = stores(u), stores(r)
+        me_u, me_r = u.params[0], r.params[0]
+        for f, sts in sorted(us.items()):
+            if f in ("is_linked",):
+                continue
+            if ci.name == "Population" and all(isinstance(st.value, ast.Constant) and st.value.value is None for st in sts):
+                # lookup tables dropped by Population.unlink are rebuilt by relink from the restored lists
+                ok = f in rs
+                ctx.check(ok, "R08i", r, rs[f][0] if ok else r.node, "%s.relink rebuilds `%s`" % (ci.name, f), "%s.unlink drops `%s` but relink never rebuilds it" % (ci.name, f), stmt_text="relink:%s" % f)
+                continue
+            if f not in rs:
+                ctx.fail("R08i", r, r.node, "%s.unlink replaces `%s` (`%s`) but %s.relink never restores it: after a copy or pickle round trip the field holds ids instead of objects" % (ci.name, f, norm(sts[0])[:60], ci.name), stmt_text="relink:%s" % f)
+                continue
+            want = RELINK_WHEN.get((ci.name, f))
+            gr = B.cond([(t, p) for st in rs[f][:1] for t, p in branch_guards(st, stop=r.node)])
+            if want is not None:
+                ok = B.equivalent(gr, B.parse_cond(want.replace("self", me_r)))
+                ctx.check(ok, "R08i", r, rs[f][0], "%s.relink restores `%s` exactly when `%s`" % (ci.name, f, want), "%s.relink restores `%s` under `%s`, not exactly when `%s`: a %s for which the conditions differ keeps `%s` unset after every copy / pickle (its function is then skipped silently)" % (ci.name, f, " and ".join(("" if p else "not ") + ast.unparse(t) for st in rs[f][:1] for t, p in branch_guards(st, stop=r.node)) or "no condition", want, ci.name.lower(), f), stmt_text="relink:%s" % f)
+                continue
+            gu = B.cond([(t, p) for t, p in branch_guards(sts[0], stop=u.node)])
+            if gu.atoms == gr.atoms or not gu.atoms or not gr.atoms:
+                ok = B.equivalent(gu, gr) if gu.atoms == gr.atoms else (not gr.atoms)
+                ctx.check(ok, "R08i", r, rs[f][0], "%s: `%s` restored under the condition it was unlinked under" % (ci.name, f), "%s.relink restores `%s` under a different condition than unlink replaced it: some objects keep ids instead of references" % (ci.name, f), stmt_text="relink:%s" % f)
+            else:
+                ctx.ok("R08i", r, "%s: `%s` restored (conditions over different atoms, not compared)" % (ci.name, f), rs[f][0])
+        # base calls
+        ub = [c for c in ast.walk(u.node) if isinstance(c, ast.Call) and isinstance(c.func, ast.Attribute) and c.func.attr == "unlink" and isinstance(c.func.value, ast.Name) and c.func.value.id[:1].isupper()]
+        rb = [c for c in ast.walk(r.node) if isinstance(c, ast.Call) and isinstance(c.func, ast.Attribute) and c.func.attr == "relink" and isinstance(c.func.value, ast.Name) and c.func.value.id[:1].isupper()]
+        ctx.check(sorted(ast.unparse(c.func.value) for c in ub) == sorted(ast.unparse(c.func.value) for c in rb) and not any(branch_guards(enclosing_stmt(c), stop=r.node) for c in rb), "R08i", r, enclosing_stmt(rb[0]) if rb else r.node, "%s: base unlink and relink both called, unconditionally" % ci.name, "%s.unlink calls %s.unlink but relink calls %s.relink (or only conditionally): the base class's references are not restored" % (ci.name, [ast.unparse(c.func.value) for c in ub], [ast.unparse(c.func.value) for c in rb]), stmt_text="relink-base")
+    ctx.require(n >= 6, "R08i: expected >= 6 unlink/relink pairs in model.py, found %d" % n)
